@@ -519,6 +519,11 @@ func (g *Rig) Stop() (err error, ok bool) {
 // WaitIdle polls the white-box counter until no accepted connection is being handled.
 func (g *Rig) WaitIdle(bound time.Duration) bool {
 	deadline := time.Now().Add(bound)
+	if g.Svc.VerifActive() < 0 {
+		// the tree under test does not expose a connection count (see overlay/varlink_whitebox_noactive.go)
+		time.Sleep(30 * time.Millisecond)
+		return true
+	}
 	for {
 		if g.Svc.VerifActive() == 0 {
 			return true
